@@ -73,6 +73,7 @@ class Trace:
         self.idle_due = []                # (name, b) : system idle & obs due at boundary b
         self.permuting = False
         self.plans = {}
+        self.tidmap = {}                  # task id -> (observation name, graph node)
         self.states = set()
 
     # ------------------------------------------------------------------
@@ -446,6 +447,16 @@ def _dowork_enter(tr, rec, task, args):
                nominal_before=task.duration, flops=task.flops, task_data=task.task_data,
                cpu=getattr(machine, 'cpu', None), bw=getattr(machine, 'bandwidth', None),
                eft=task.eft, exited=False)
+    # identity of the activation, independent of the format of task ids: workflow tasks are
+    # looked up in the plans captured at planning time, ingest tasks take the observation of
+    # their allocation
+    info = tr.tidmap.get(task.id)
+    if rec['ingest']:
+        rec['ident'] = (str(rec['obs']), 'ingest', str(task.id))
+    elif info is not None:
+        rec['ident'] = (info[0], 'wf', info[1])
+    else:
+        rec['ident'] = None
     tr.dowork.append(rec)
     lst = tr.active[mid]
     lst.append(rec)
